@@ -31,6 +31,45 @@ theorem good_err {n : Nat} {e : Err} {rest : List Char} (h : rest.length ≤ n) 
 theorem layoutGo_le (u : UC) (st : LS) (ins : Bool) (s : List Char) :
     ∀ i r, layoutGo u st ins s = .ok i r → r.length ≤ s.length := by
   fun_induction layoutGo u st ins s <;> intro i r h <;> simp_all <;> try omega
-  all_goals sorry
+
+theorem scanLayout_le (u : UC) (s : List Char) (i : Bool) (r : List Char)
+    (h : scanLayout u s = .ok i r) : r.length ≤ s.length := by
+  cases s with
+  | nil => simp [scanLayout] at h
+  | cons c t => exact layoutGo_le u .base false (c :: t) i r (by simpa [scanLayout] using h)
+
+/-! ## runs -/
+
+theorem runTok_good (p : Char → Bool) (k : Kind) (s : List Char) : Good s.length (runTok p k s) := by
+  fun_induction runTok p k s <;> simp_all
+  case case2 c r hp ih => exact Good.mono ih (by simp)
+
+/-- maximal munch: a run token stops at the first character outside the class, and everything
+    before it is in the class -/
+theorem runTok_munch (p : Char → Bool) (k : Kind) (s : List Char) (k' : Kind) (rest : List Char)
+    (h : runTok p k s = .tok k' rest) :
+    k' = k ∧ ∃ pre d r, s = pre ++ rest ∧ rest = d :: r ∧ p d = false ∧ ∀ c ∈ pre, p c = true := by
+  fun_induction runTok p k s
+  case case1 => simp at h
+  case case2 c r hp ih =>
+    obtain ⟨hk, pre, d, r', hs, hr, hd, hall⟩ := ih h
+    refine ⟨hk, c :: pre, d, r', by simp [hs], hr, hd, ?_⟩
+    intro x hx
+    cases List.mem_cons.mp hx with
+    | inl e => simpa [e] using hp
+    | inr e => exact hall x e
+  case case3 c r hp =>
+    simp at h
+    obtain ⟨hk, hr⟩ := h
+    exact ⟨hk.symm, [], c, r, by simp [hr], hr.symm, by simpa using hp, by simp⟩
+
+/-! ## quoted items -/
+
+theorem skipQ_le (q : Char) (s : List Char) : (skipQ q s).length ≤ s.length := by
+  fun_induction skipQ q s <;> simp_all <;> omega
+
+theorem qGo_good (u : UC) (m : QM) (st : QS) (s : List Char) :
+    Good (s.length + (if m = .ch then 1 else 0)) (qGo u m st s) := by
+  fun_induction qGo u m st s <;> simp_all [good_err]
 
 end Scryer.Resync
